@@ -383,8 +383,20 @@ def main(tier, replay=None):
             v.violation({'stage': 'tokens', 'clause': why, 'backend': m['backend'], 'input': m['input'].split('~')[0]},
                         {'input': m, 'at_token': at, 'token': t['tokens'][at - 1] if 0 < at <= len(t['tokens']) else None,
                          'outcome': t['outcome'], 'errmarks': t['errmarks']})
+    # (d) error.py: what a Mark prints (Snippet.tla / Trace_Snippet.tla) - not part of C09's statement: drift notes only
+    from .. import snippet
+    sn = snippet.stage(tier, 'C09_snippet')
+    states += sn['states']
+    trans += sn['transitions']
+    if sn['drift']:
+        v.note('spec-drift C09/snippet: Mark.get_snippet differs from Snippet.tla on %d of %d enumerated (buffer, pointer, '
+               'max_length, indent), e.g. %s' % (sn['drift'], sn['replayed'], sn['examples'][:1]))
+    if sn['rejected']:
+        v.note('spec-drift C09/snippet: %d of %d marks of real errors are not what Snippet.tla computes (%s), e.g. %s'
+               % (len(sn['rejected']), sn['judged'], sorted({w for w, _ in sn['rejected']}), str(sn['rejected'][0][1])[:300]))
     v.cov = {'states': states, 'transitions': trans, 'corpus_token_streams_judged': len(ttraces),
-             'traces_validated_against_impl': len(traces) + len(ctraces) + len(ttraces),
+             'snippet_states_replayed': sn['replayed'], 'snippet_error_marks_judged': sn['judged'],
+             'traces_validated_against_impl': len(traces) + len(ctraces) + len(ttraces) + sn['replayed'] + sn['judged'],
              'token_sequences_replayed': tested, 'distinct_event_streams_judged': len(traces),
              'corpus_event_streams_judged': len(ctraces), 'model_outcomes': finals, 'exhaustive': True,
              'actions_fired': {a: c[1] for a, c in r.actions.items()},
